@@ -152,7 +152,7 @@ def props():
     add("paragraph", "alignment", lambda r: E(r, text.PP_ALIGN, skip=("MIXED",)), none_ok=True)
     add("paragraph", "level", lambda r: r.randint(0, 8), bad=lambda r: r.choice([-1, 9, "1"]))
     add("paragraph", "line_spacing", lambda r: d_spc(r) if r.random() < 0.45 else r.choice([1.0, 1.5, 0.9, 2, 0.0, 132.0, r.uniform(0, 132)]), none_ok=True, quantum=127,
-        bad=lambda r: r.choice([-0.5, 132.5, Emu(20116801), "1"]))
+        bad=lambda r: r.choice([-0.5, 132.5, Emu(20116801), "1", 133, 150, 20116800, -1]))
     add("paragraph", "space_before", d_spc, none_ok=True, quantum=127, bad=lambda r: r.choice([Emu(20116801), Emu(-1), 1.5, "3"]))
     add("paragraph", "space_after", d_spc, none_ok=True, quantum=127, bad=lambda r: r.choice([Emu(20116801), Emu(-1), 1.5, "3"]))
     add("paragraph", "text", d_text, norm=lambda v: v.replace("\n", "\v"))
